@@ -512,6 +512,13 @@ def handle (req : Json) : Except String Json := do
       | .ok (.arr #[.bool a, .bool b, .bool c, .bool d, .bool e, .bool f]) =>
           pure (Json.mkObj [("ok", .bool (Nbdime.Pretty.shouldIgnore ⟨a, b, c, d, e, f⟩ p))])
       | _ => throw "shouldignore.include"
+  | "tspatch" => do
+      let doc ← decJ (req.getObjValD "doc")
+      let d ← decDiff (req.getObjValD "diff")
+      match reply (Nbdime.Ts.patch doc d) encJ with
+      | .obj kvs => pure (.obj (kvs.insert "domain" (.bool (doc.canonical && Nbdime.Ts.noExotic doc && wf doc d))
+                                 |>.insert "python" (reply (patch doc d) encJ)))
+      | j => pure j
   | "tssplit" => do
       let t ← req.getObjValAs? String "text"
       pure (Json.mkObj [("ok", .arr ((Nbdime.Ts.splitLines t.toList).map (fun l => Json.str (String.ofList l))).toArray)])
